@@ -88,7 +88,7 @@ impl Thread {
         g.0 = St::Running;
         self.ctl.cv.notify_all();
         loop {
-            let (ng, to) = self.ctl.cv.wait_timeout(g, Duration::from_secs(20)).unwrap();
+            let (ng, to) = self.ctl.cv.wait_timeout(g, Duration::from_millis(2500)).unwrap();
             g = ng;
             match g.0 {
                 St::Parked(..) | St::Finished(_) => return g.0.clone(),
